@@ -147,6 +147,31 @@ lock_cases!(|p| AutoStream::never(p), lock_once_auto_never_write, lock_once_auto
 lock_cases!(|p| AutoStream::always_ansi(p), lock_once_auto_always_ansi_write, lock_once_auto_always_ansi_write_all, lock_once_auto_always_ansi_write_vectored, lock_once_auto_always_ansi_write_fmt, lock_once_auto_always_ansi_flush);
 lock_cases!(|p| StripStream::new(p), lock_once_strip_write, lock_once_strip_write_all, lock_once_strip_write_vectored, lock_once_strip_write_fmt, lock_once_strip_flush);
 
+/// The shared standard streams: what `as_locked_write` hands out for stdout / stderr IS
+/// std's lock guard (the lemma above is about *when* the lock is taken; this pins *that* the
+/// thing taken is the process-wide stream lock).
+#[kani::proof]
+fn std_streams_hand_out_std_locks() {
+    fn name_of<T: ?Sized>(_: &T) -> &'static str {
+        core::any::type_name::<T>()
+    }
+    let mut out = std::io::stdout();
+    let mut err = std::io::stderr();
+    {
+        let g = out.as_locked_write();
+        assert!(name_of(&g).ends_with("StdoutLock<'_>") || name_of(&g).ends_with("StdoutLock"), "stdout's locked writer is std's StdoutLock");
+        core::mem::forget(g);
+    }
+    {
+        let g = err.as_locked_write();
+        assert!(name_of(&g).ends_with("StderrLock<'_>") || name_of(&g).ends_with("StderrLock"), "stderr's locked writer is std's StderrLock");
+        core::mem::forget(g);
+    }
+    kani::cover!(true);
+    core::mem::forget(out);
+    core::mem::forget(err);
+}
+
 /// The process-wide choice: a write is read back; every stored value maps to a choice.
 #[kani::proof]
 fn global_choice_register() {
